@@ -94,12 +94,13 @@ def run_scenarios(ctx, plan, label, mem_limit=False, txprog=False):
         ctx.nontrivial.add((sc, widen))
         # the recorded protocol trace must be a run of the Lean model
         if os.path.exists(tracef):
+            add_bpop_calls(tracef)
             p = subprocess.run([f"{vlib.LEAN}/.lake/build/bin/driver"], stdin=open(tracef), capture_output=True, text=True, timeout=1800)
             out = p.stdout.split("\n")
             lines = open(tracef).read().split("\n")
             n_ev = sum(1 for l in lines if l.startswith(("pev ", "bev ", "gev ")))
             events += n_ev
-            bad = [j for j, o in enumerate(out[:len(lines)]) if o in ("rejected", "bad-op")]
+            bad = [j for j, o in enumerate(out[:len(lines)]) if o in ("rejected", "bad-op") or o.startswith("rejected-prog")]
             kinds = {}
             for l in lines:
                 t = l.split()
@@ -111,7 +112,7 @@ def run_scenarios(ctx, plan, label, mem_limit=False, txprog=False):
                 j = bad[0]
                 vlib.record_violation(ctx, "protocol-trace", {
                     "scenario": sc, "scenario_seed": seed, "rounds": rounds, "widen": widen,
-                    "rejected_event": lines[j], "position": j, "preceding": lines[max(0, j - 40):j],
+                    "rejected_event": lines[j], "position": j, "preceding": lines[max(0, j - 40):j], "driver_says": out[j],
                     "ops": [f"stress {sc} {seed} {rounds} {widen}"],
                     "explain": "the implementation took a step that the locking protocol model (Model/Proto.lean, about which the theorems are proved) does not allow in the state reached by the earlier steps; the scenario's own invariants held in this run"},
                     no_input=True)
@@ -121,6 +122,40 @@ def run_scenarios(ctx, plan, label, mem_limit=False, txprog=False):
             os.remove(tracef)
     ctx.cov["protocol_events_validated"] = ctx.cov.get("protocol_events_validated", 0) + events
     return runs
+
+
+def add_bpop_calls(tracef):
+    """The replay of the `bev` lines against the program model of blockingPop (Model/BlockProg.lean) needs the
+    arguments of every call when it starts; the hooks report them piecemeal (one `reg` per key, the sign of the timeout
+    with the first `block`). Insert `bpp call <w> <tmo> <key>...` in front of the first `reg` of every waiter."""
+    lines = open(tracef).read().split("\n")
+    if not any(l.startswith("bev ") for l in lines):
+        return
+    keys, tmo, fails, first = {}, {}, {}, {}
+    for j, l in enumerate(lines):
+        t = l.split()
+        if len(t) < 3 or t[0] != "bev":
+            continue
+        w = t[2]
+        if t[1] == "reg":
+            first.setdefault(w, j)
+            keys.setdefault(w, []).append(t[3])
+        elif t[1] == "try" and t[4] == "0":
+            fails[w] = fails.get(w, 0) + 1
+        elif t[1] == "block":
+            tmo.setdefault(w, 1 if t[3] == "1" else 0)
+        elif t[1] == "abort" and w not in tmo:
+            # no wait before the call unwinds: after a complete round of failed tries it is the non-waiting form
+            # (timeout < 0, used inside EXEC), otherwise a pop panicked
+            tmo[w] = -1 if fails.get(w, 0) == len(keys.get(w, [])) else 0
+    at = {j: w for w, j in first.items()}
+    out = []
+    for j, l in enumerate(lines):
+        if j in at:
+            w = at[j]
+            out.append(f"bpp call {w} {tmo.get(w, 0)} " + " ".join(keys[w]))
+        out.append(l)
+    open(tracef, "w").write("\n".join(out))
 
 
 def replay(r):
